@@ -24,6 +24,8 @@ KEYS = {
     "F33": ("C16-cparamschanged-survives-frame", "a parameter update made during one frame re-parametrises the next multithreaded frame"),
     "R3a": ("C16-ddictset-survives-parameter-reset", "ZSTD_DCtx_reset(parameters) keeps the DDicts referenced for ZSTD_d_refMultipleDDicts: a dropped DDict is selected again"),
     "R3b": ("C16-refmulti-select-bypasses-dictid-check", "with ZSTD_d_refMultipleDDicts the selection of a referenced DDict vouches for whatever dictionary was loaded: the dictID check passes"),
+    "R3d": ("C16-refmulti-select-destroys-loaded-dictionary", "decoding a frame that names a referenced DDict destroys the dictionary loaded into the context"),
+    "R3e": ("C16-d-maxblocksize-ignored-by-bufferless-decoding", "ZSTD_d_maxBlockSize is not in force for frames decoded with ZSTD_decompressBegin / ZSTD_decompressContinue"),
     "R3c": ("C16-simple-api-leaves-stream-open", "a single-call compression on a context with an open streaming frame leaves the session open"),
 }
 
@@ -108,6 +110,16 @@ def scenarios(env):
     for refs in (["drefddict 0 1"], ["drefddict 0 1", "drefddict 0 2"], ["drefddict 0 2", "dload 0 2"], ["drefddict 0 1", "drefprefix 0 1"]):
         out.append(("R3b", ["new", "dset 0 %d 1" % rm] + refs + ["ddecr 0 2 1", "ddecr 0 1 1", "ddecr 0 0 1", "ddecr 0 1 2", "ddecr 0 2 2", "ddecr 0 0 0", "ddecr 0 1 3", "ddec 0 1"]))
     out.append(("R3b", ["new", "dset 0 %d 1" % rm, "drefddict 0 1", "dset 0 %d 1" % env.did["forceIgnoreChecksum"], "ddecr 0 2 1", "ddecr 0 1 1"]))
+    # R3d (round 3): a loaded dictionary (or a prefix) next to referenced DDicts stays in force whatever frames are decoded
+    for hold in ("dload 0 2", "dload 0 1"):
+        for dec in ("ddec", "ddec1"):
+            out.append(("R3d", ["new", "dset 0 %d 1" % rm, "drefddict 0 1", hold, "%s 0 2" % dec, "%s 0 1" % dec, "%s 0 2" % dec, "%s 0 1" % dec, "ddecm 0 2 2 0"]))
+    out.append(("R3d", ["new", "dset 0 %d 1" % rm, "drefddict 0 1", "drefddict 0 2", "drefprefix 0 1", "ddec 0 1", "ddec 0 3", "ddec 0 1", "drefddict 0 1", "ddec 0 2", "ddec 0 1"]))
+    # R3e (round 3): ZSTD_d_maxBlockSize on every decoding path (G2 starts with a 4096-byte block)
+    mb = env.did["maxBlockSize"]
+    for v in (1024, 4095, 4096, 0, 131072):
+        out.append(("R3e", ["new", "dset 0 %d %d" % (mb, v), "dfx 0 2", "dfxb 0 2", "dfx 0 0", "dfxb 0 0", "dreset 0 2", "dfxb 0 2"]))
+    out.append(("R3e", ["new", "dset 1 %d 2048" % mb, "dfxb 1 2", "dfx 1 2", "dfxb 1 0", "dfxb 1 3", "dfxb 1 1", "dfxb 1 4"]))
     # R3c (round 3): ZSTD_compressCCtx in the middle of a streamed frame closes the session
     for tail in (["cbegin 0", "cend 0"], ["cend 0"], ["cset 0 %d 1" % env.cid["checksumFlag"], "cframe 0"], ["cpl 0 200", "cbegin 0", "cbegin 0", "cend 0"]):
         out.append(("R3c", ["new", "cbegin 0", "csimple 0"] + tail))
@@ -399,7 +411,7 @@ def gen_history2(rng, env, n, c16):
             elif k < 0.84:
                 op = "ddecr %d %d %d" % (o, rng.randint(0, 2), rng.randint(0, 4))
             else:
-                op = rng.choice(["dbegin", "dend", "dbad", "dbadcall", "dframe", "dfx"]) + " %d" % o
+                op = rng.choice(["dbegin", "dend", "dbad", "dbadcall", "dframe", "dfx", "dfxb"]) + " %d" % o
                 if op.startswith("dfx"):
                     op += " %d" % rng.randint(0, 4)
             ops += [op] + dobs(o)
@@ -767,7 +779,8 @@ class SessionOracle:
                 # refMultipleDDicts: a frame naming a referenced DDict is decoded with it while the context is in dictionary mode.
                 # Streaming counts a spent prefix as "dictionary mode" (dctx->ddict is still set), the one-shot path does not
                 # (ZSTD_getDDict clears it first): both as the code does, see docs/C16.md 8.4 notes.
-                if multi and x0[3] == "1" and kind != "0" and f in (1, 2) and in_set[f] and (k0 == "ddec" or uses != "0"):
+                # since fixes a891479 / d0ddbff only a REFERENCED DDict in use is replaced by the selection (never a loaded dictionary or a prefix)
+                if multi and x0[3] == "1" and kind == "1" and uses != "0" and f in (1, 2) and in_set[f]:
                     eff = ("1", f)
                 need_ok = f == 0 or (f in (1, 2) and eff[0] in ("1", "2") and eff[1] == f) or (f in (3, 4) and eff == ("3", f - 2))
                 if need_ok != (cls == "ok"):
